@@ -41,6 +41,10 @@ Pool ==
     With(Base, "env", E(FALSE, ("A" :> "1"))), [Base EXCEPT !.penv = ("A" :> "1")],
     [With(Base, "env", E(FALSE, ("A" :> "1"))) EXCEPT !.penv = ("A" :> "pa")],          \* shadowed: same as the step-env-only one
     [Base EXCEPT !.penv = ("A" :> "1") @@ ("B" :> "2")], [Base EXCEPT !.penv = ("A" :> "12") @@ ("B" :> "")], [Base EXCEPT !.penv = ("B" :> "2")],
+    \* names that differ only in case are different variables: a step variable A does not shadow the pipeline's a
+    [With(Base, "env", E(FALSE, ("A" :> "1"))) EXCEPT !.penv = ("a" :> "p1")], [With(Base, "env", E(FALSE, ("A" :> "1"))) EXCEPT !.penv = ("a" :> "p2")],
+    \* a matrix whose leftover fields hold a key named like a real field (`setup`): the real field is what is signed
+    With(Base, "matrix", "shadow_a"), With(Base, "matrix", "shadow_b"),
     \* env::A as a signed field versus a step variable literally named env::A / :A
     With(Base, "env", E(FALSE, ("env::A" :> "1"))), With(Base, "env", E(FALSE, (":A" :> "1"))) }
 
